@@ -238,12 +238,13 @@ func (c *Ctx) checkDistRange() {
 		type leaf struct {
 			v      ssa.Value
 			from   *ssa.BasicBlock
+			to     *ssa.BasicBlock
 			capped bool
 		}
 		var leaves []leaf
 		vis := map[*ssa.Phi]bool{}
-		var walk func(v ssa.Value, from *ssa.BasicBlock, capped bool)
-		walk = func(v ssa.Value, from *ssa.BasicBlock, capped bool) {
+		var walk func(v ssa.Value, from, to *ssa.BasicBlock, capped bool)
+		walk = func(v ssa.Value, from, to *ssa.BasicBlock, capped bool) {
 			if from != nil && constOf(v) == nil && cappedAt(v, from) {
 				capped = true
 			}
@@ -253,13 +254,13 @@ func (c *Ctx) checkDistRange() {
 				}
 				vis[p] = true
 				for i, e := range p.Edges {
-					walk(e, p.Block().Preds[i], capped)
+					walk(e, p.Block().Preds[i], p.Block(), capped)
 				}
 				return
 			}
-			leaves = append(leaves, leaf{v, from, capped})
+			leaves = append(leaves, leaf{v, from, to, capped})
 		}
-		walk(s.v, nil, false)
+		walk(s.v, nil, nil, false)
 		for _, lf := range leaves {
 			nLeaves++
 			pos := c.P.Pos(s.call.Pos())
@@ -271,18 +272,18 @@ func (c *Ctx) checkDistRange() {
 					continue
 				}
 				if f == 0 && lf.from != nil {
+					// the 0 arrives on an edge that is taken only when check2SequencesDiff came out false
 					okZero := false
-					for d := lf.from; d != nil; d = d.Idom() {
-						for _, p := range d.Preds {
-							if ifi, ok := p.Instrs[len(p.Instrs)-1].(*ssa.If); ok && p.Succs[1] == d && len(d.Preds) == 1 {
-								if call, ok := ifi.Cond.(*ssa.Call); ok {
-									if f := call.Common().StaticCallee(); f != nil && f.Name() == "check2SequencesDiff" {
-										okZero = true
-									}
+					zbf := computeBranchFacts(fn)
+					allInstrs(fn, func(in ssa.Instruction) {
+						if call, ok := in.(*ssa.Call); ok {
+							if g := call.Common().StaticCallee(); g != nil && g.Name() == "check2SequencesDiff" {
+								if zbf.knownOnEdge(lf.from, lf.to, call, false) {
+									okZero = true
 								}
 							}
 						}
-					}
+					})
 					if okZero {
 						sawZero = true
 					}
@@ -644,6 +645,7 @@ func (c *Ctx) checkFullScan(rule, rel, name string) {
 		h := lp.Head
 		var phi *ssa.Phi
 		var bound *lin
+		var rangeForm *ssa.BinOp
 		ok := false
 		// the comparison may be in the header or (with `&&`) in the header only as first conjunct
 		if ifi, isIf := h.Instrs[len(h.Instrs)-1].(*ssa.If); isIf {
@@ -653,15 +655,29 @@ func (c *Ctx) checkFullScan(rule, rel, name string) {
 					b := lc.of(bo.Y)
 					bound = &b
 				}
+				// `for k := range s`: the counter is φ+1 with φ starting at -1; same thing as from 0
+				if add, isAdd := bo.X.(*ssa.BinOp); isAdd && add.Op == token.ADD {
+					if p, isPhi := add.X.(*ssa.Phi); isPhi && p.Block() == h {
+						if k, isK := constInt(add.Y); isK && k == 1 {
+							phi = p
+							b := lc.of(bo.Y)
+							bound = &b
+							rangeForm = add
+						}
+					}
+				}
 			}
 		}
 		if phi != nil {
 			init0, step1 := false, true
 			for i, e := range phi.Edges {
 				if !lp.Blocks[h.Preds[i]] {
-					if k, isK := constInt(e); isK && k == 0 {
+					if k, isK := constInt(e); isK && ((rangeForm == nil && k == 0) || (rangeForm != nil && k == -1)) {
 						init0 = true
 					}
+					continue
+				}
+				if rangeForm != nil && e == ssa.Value(rangeForm) {
 					continue
 				}
 				st, isBo := e.(*ssa.BinOp)
